@@ -296,3 +296,84 @@ Section Step.
     sim f serel (exec_for (S n) P e1 var r1 b) (exec_for (S n) P e2 var r2 b).
   Proof. intros E Rg. rewrite !exec_for_S. cbv zeta. isolve. Qed.
 End Step.
+
+(* all nine functions, every fuel: invariance under heap isomorphism and garbage *)
+Theorem evaluator_iso P : forall n,
+  (forall f e1 e2 x, envrel f e1 e2 -> sim f lrel (eval_expr n P e1 x) (eval_expr n P e2 x)) /\
+  (forall f e1 e2 l, envrel f e1 e2 -> sim f lrels (eval_exprs n P e1 l) (eval_exprs n P e2 l)) /\
+  (forall f e1 e2 nm args, envrel f e1 e2 ->
+      sim f (optrel lrel) (eval_call n P e1 nm args) (eval_call n P e2 nm args)) /\
+  (forall f e1 e2 st, envrel f e1 e2 -> sim f serel (exec_stmt n P e1 st) (exec_stmt n P e2 st)) /\
+  (forall f e1 e2 l, envrel f e1 e2 -> sim f serel (exec_stmts n P e1 l) (exec_stmts n P e2 l)) /\
+  (forall f e1 e2 l, envrel f e1 e2 -> sim f serel (exec_block n P e1 l) (exec_block n P e2 l)) /\
+  (forall f e1 e2 c b, envrel f e1 e2 -> sim f oserel (exec_cond n P e1 c b) (exec_cond n P e2 c b)) /\
+  (forall f e1 e2 c b, envrel f e1 e2 -> sim f serel (exec_while n P e1 c b) (exec_while n P e2 c b)) /\
+  (forall f e1 e2 var r1 r2 b, envrel f e1 e2 -> rngrel f r1 r2 ->
+      sim f serel (exec_for n P e1 var r1 b) (exec_for n P e2 var r2 b)).
+Proof.
+  induction n as [|n IH].
+  - repeat apply conj; intros; simpl; apply sim_fail.
+  - destruct IH as (I1 & I2 & I3 & I4 & I5 & I6 & I7 & I8 & I9).
+    repeat apply conj; intros.
+    + apply step_expr; auto.
+    + apply step_exprs; auto.
+    + apply step_call; auto.
+    + apply step_stmt; auto.
+    + apply step_stmts; auto.
+    + apply step_block; auto.
+    + apply step_cond; auto.
+    + apply step_while; auto.
+    + apply step_for; auto.
+Qed.
+
+Definition exec_block_iso P n := proj1 (proj2 (proj2 (proj2 (proj2 (proj2 (evaluator_iso P n)))))).
+Definition exec_stmts_iso P n := proj1 (proj2 (proj2 (proj2 (proj2 (evaluator_iso P n))))).
+Definition eval_call_iso P n := proj1 (proj2 (proj2 (evaluator_iso P n))).
+
+(* ---------- outcomes of whole runs and events ---------- *)
+(* the relational statement on (outcome, state) pairs *)
+Definition run_iso (f : lmap) (r1 r2 : outcome * state) : Prop :=
+  fst r1 = fst r2 /\ exists f', ext f f' /\ iso f' (snd r1) (snd r2).
+
+Lemma iso_test_report f s1 s2 : iso f s1 s2 -> iso f (test_report s1) (test_report s2).
+Proof.
+  intro I. unfold test_report. rewrite <- (iso_total _ _ _ I), <- (iso_fails _ _ _ I).
+  destruct (Nat.eqb (st_total s1) 0); auto.
+  eapply iso_same_heap; eauto; simpl; try (destruct I; assumption).
+  f_equal. destruct I; assumption.
+Qed.
+
+(* Evaluator.Eval *)
+Theorem run_program_iso fuel P f s1 s2 :
+  iso f s1 s2 -> run_iso f (run_program fuel P s1) (run_program fuel P s2).
+Proof.
+  intro I. unfold run_program.
+  assert (S : sim f (eqrel unit)
+                (let* _ := tick in let* _ := exec_stmts fuel P [] (p_stmts P) in ret tt)
+                (let* _ := tick in let* _ := exec_stmts fuel P [] (p_stmts P) in ret tt)).
+  { sbind prim. sbind ltac:(apply exec_stmts_iso; constructor). prim. }
+  destruct (S s1 s2 I) as (f' & E & I' & Rr).
+  destruct ((let* _ := tick in let* _ := exec_stmts fuel P [] (p_stmts P) in ret tt) s1) as [r1 t1].
+  destruct ((let* _ := tick in let* _ := exec_stmts fuel P [] (p_stmts P) in ret tt) s2) as [r2 t2].
+  simpl in I', Rr. pose proof (iso_test_report _ _ _ I') as IT.
+  destruct r1 as [u1|er1], r2 as [u2|er2]; simpl in Rr; try contradiction.
+  - rewrite <- (iso_fails _ _ _ IT). destruct (Nat.ltb 0 _); split; simpl; eauto.
+  - subst er2. split; [reflexivity|]. exists f'. split; auto. simpl. destruct er1; auto.
+Qed.
+
+(* Evaluator.HandleEvent *)
+Theorem handle_event_iso fuel P name args f s1 s2 :
+  iso f s1 s2 -> run_iso f (handle_event fuel P name args s1) (handle_event fuel P name args s2).
+Proof.
+  intro I. unfold handle_event. destruct (find_handler name (p_handlers P)) as [h|].
+  2: { split; [reflexivity|]. exists f. split; [apply ext_refl | exact I]. }
+  assert (S : sim f (eqrel unit)
+                (let* fr := bind_payload (h_params h) args [] in let* _ := exec_block fuel P [fr] (h_body h) in ret tt)
+                (let* fr := bind_payload (h_params h) args [] in let* _ := exec_block fuel P [fr] (h_body h) in ret tt)).
+  { sbind ltac:(apply sim_bind_payload; constructor).
+    sbind ltac:(apply exec_block_iso; apply envrel_single; assumption). prim. }
+  destruct (S s1 s2 I) as (f' & E & I' & Rr).
+  destruct ((let* fr := bind_payload (h_params h) args [] in let* _ := exec_block fuel P [fr] (h_body h) in ret tt) s1) as [r1 t1].
+  destruct ((let* fr := bind_payload (h_params h) args [] in let* _ := exec_block fuel P [fr] (h_body h) in ret tt) s2) as [r2 t2].
+  simpl in I', Rr. destruct r1, r2; simpl in Rr; try contradiction; split; simpl; eauto; congruence.
+Qed.
